@@ -23,6 +23,7 @@ struct GenCfg {
     bool genericBoxes = true;  // allow non dyadic boxes
     bool autoBlock = true;     // allow automatic / environment block size
     bool twoGroupings = false; // C08
+    bool ulpFacesGeneric = false; // numerical kernels: particles 1-3 ulps inside a cell face of a generic (non dyadic) box near the origin
     bool emptySets = false;    // one case in 40 has an empty particle set (target/source: either or both sides)
     bool histories = false;    // C12
     int historyOneIn = 1;      // with histories: a staged history for one case in N, a single full call otherwise
